@@ -167,6 +167,15 @@ func (c *fnCtx) call(call *ast.CallExpr) *Stmt {
 			return c.exprs(call.Args)
 		}
 	}
+	// invocation of a func-typed parameter of the enclosing function: resolved where the function is inlined
+	if id, ok := fun.(*ast.Ident); ok {
+		if o := c.objOf(id); o != nil && c.t.funcParams[o] != nil {
+			for _, a := range call.Args {
+				c.escapes(a, "is passed to a callback")
+			}
+			return seq(c.exprs(call.Args), &Stmt{K: KCallParam, Param: o, Label: id.Name, Pos: c.pos(call.Pos())})
+		}
+	}
 	// conversions
 	if tv, ok := c.pkg.Info.Types[fun]; ok && tv.IsType() {
 		return c.exprs(call.Args)
@@ -205,7 +214,15 @@ func (c *fnCtx) call(call *ast.CallExpr) *Stmt {
 			for _, a := range call.Args {
 				c.escapes(a, "is passed to a function")
 			}
-			return seq(pre, c.exprs(call.Args), c.inlineCall(fi, recv, call))
+			// arguments bound to a callback parameter the callee invokes are resolved inside inlineCall
+			cb := c.callbackArgs(fi, call.Args)
+			var plain []ast.Expr
+			for i, a := range call.Args {
+				if !cb[i] {
+					plain = append(plain, a)
+				}
+			}
+			return seq(pre, c.exprs(plain), c.inlineCall(fi, recv, call.Args, call.Pos()))
 		}
 	}
 	// opaque callee (other package, function value, interface method)
@@ -215,8 +232,68 @@ func (c *fnCtx) call(call *ast.CallExpr) *Stmt {
 	return seq(c.expr(fun), c.exprs(call.Args))
 }
 
-func (c *fnCtx) inlineCall(fi *FuncInfo, recv ast.Expr, call *ast.CallExpr) *Stmt {
-	body := c.t.inlineBody(fi, call.Pos())
+// which arguments are bound to func-typed parameters that the callee invokes (directly, in its own body)
+func (c *fnCtx) callbackArgs(fi *FuncInfo, args []ast.Expr) map[int]bool {
+	out := map[int]bool{}
+	body := c.t.inlineBody(fi, fi.Decl.Pos())
+	if body == nil || !body.hasCallParam() {
+		return out
+	}
+	invoked := map[interface{}]bool{}
+	body.walk(func(x *Stmt) {
+		if x.K == KCallParam {
+			invoked[x.Param] = true
+		}
+	})
+	i := 0
+	for _, f := range fi.Decl.Type.Params.List {
+		for _, n := range f.Names {
+			if o := fi.Pkg.Info.Defs[n]; o != nil && invoked[o] && i < len(args) {
+				out[i] = true
+			}
+			i++
+		}
+		if len(f.Names) == 0 {
+			i++
+		}
+	}
+	return out
+}
+
+// IR of what happens when the function value `arg` is invoked here
+func (c *fnCtx) resolveCallback(arg ast.Expr, at token.Pos) (*Stmt, bool) {
+	switch x := stripParens(arg).(type) {
+	case *ast.FuncLit:
+		return c.deferredLiteral(x), true
+	case *ast.Ident:
+		if x.Name == "nil" {
+			return skip(), true
+		}
+		o := c.objOf(x)
+		if o != nil && c.t.funcParams[o] != nil {
+			return &Stmt{K: KCallParam, Param: o, Label: x.Name, Pos: c.pos(at)}, true // handed on: resolved one level up
+		}
+		if fn, ok := o.(*types.Func); ok {
+			if fi := c.t.funcs[fn]; fi != nil {
+				return c.inlineCall(fi, nil, nil, at), true
+			}
+		}
+	case *ast.SelectorExpr:
+		if fn, ok := c.pkg.Info.Uses[x.Sel].(*types.Func); ok {
+			if fi := c.t.funcs[fn]; fi != nil {
+				var recv ast.Expr
+				if fi.Decl.Recv != nil {
+					recv = x.X
+				}
+				return c.inlineCall(fi, recv, nil, at), true // method value: receiver bound now
+			}
+		}
+	}
+	return nil, false
+}
+
+func (c *fnCtx) inlineCall(fi *FuncInfo, recv ast.Expr, args []ast.Expr, at token.Pos) *Stmt {
+	body := c.t.inlineBody(fi, at)
 	if body == nil || body.trivial() {
 		return skip()
 	}
@@ -227,7 +304,6 @@ func (c *fnCtx) inlineCall(fi *FuncInfo, recv ast.Expr, call *ast.CallExpr) *Stm
 	}
 	m := map[types.Object]bind{}
 	c.noRecord = true
-	defer func() { c.noRecord = false }()
 	if fi.Decl.Recv != nil && recv != nil {
 		for _, f := range fi.Decl.Recv.List {
 			for _, n := range f.Names {
@@ -239,9 +315,9 @@ func (c *fnCtx) inlineCall(fi *FuncInfo, recv ast.Expr, call *ast.CallExpr) *Stm
 	i := 0
 	for _, f := range fi.Decl.Type.Params.List {
 		for _, n := range f.Names {
-			if i < len(call.Args) {
-				r, ok := c.pathOf(call.Args[i])
-				m[fi.Pkg.Info.Defs[n]] = bind{r, ok, call.Args[i]}
+			if i < len(args) {
+				r, ok := c.pathOf(args[i])
+				m[fi.Pkg.Info.Defs[n]] = bind{r, ok, args[i]}
 			}
 			i++
 		}
@@ -249,6 +325,7 @@ func (c *fnCtx) inlineCall(fi *FuncInfo, recv ast.Expr, call *ast.CallExpr) *Stm
 			i++
 		}
 	}
+	c.noRecord = false
 	return body.subst(func(r Ref) Ref {
 		o, isObj := r.Root.(types.Object)
 		if !isObj {
@@ -256,16 +333,33 @@ func (c *fnCtx) inlineCall(fi *FuncInfo, recv ast.Expr, call *ast.CallExpr) *Stm
 		}
 		if b, bound := m[o]; bound {
 			if !b.ok {
-				c.t.fail(call.Pos(), "call of %s: argument %s is used by the callee to reach a lock or a guarded field but is not a variable/field path", fi.Name, exprText(b.e))
+				c.t.fail(at, "call of %s: argument %s is used by the callee to reach a lock or a guarded field but is not a variable/field path", fi.Name, exprText(b.e))
 				return r
 			}
-			c.noteRoot(b.ref, call.Pos())
+			c.noteRoot(b.ref, at)
 			return Ref{Root: b.ref.Root, Path: append(append([]string{}, b.ref.Path...), r.Path...)}
 		}
 		if v, isVar := o.(*types.Var); isVar && v.Parent() == v.Pkg().Scope() {
 			return r // package-level variable: the same in caller and callee
 		}
 		return Ref{Root: qroot{o, fi.Name}, Path: r.Path}
+	}, func(x *Stmt) *Stmt {
+		po, _ := x.Param.(types.Object)
+		b, bound := m[po]
+		if !bound {
+			if c.t.funcParams[po] == fi {
+				// the callee invokes a callback we were given no argument for (method value / function reference)
+				c.t.fail(at, "%s invokes its callback parameter %s, which is unknown at this use of the function", fi.Name, x.Label)
+				return skip()
+			}
+			return x // a parameter of an outer function: resolved further up
+		}
+		s, ok := c.resolveCallback(b.e, at)
+		if !ok {
+			c.t.fail(at, "call of %s: the callback argument %s is invoked by the callee (possibly while it holds a lock) and cannot be resolved to a function literal, a function or a method", fi.Name, exprText(b.e))
+			return skip()
+		}
+		return s
 	})
 }
 
@@ -809,6 +903,20 @@ func (c *fnCtx) assign(lhs, rhs []ast.Expr, tok token.Token, at token.Pos) *Stmt
 			}
 			if r != nil {
 				c.escapes(r, "is stored in a field")
+			}
+			if sel := c.pkg.Info.Selections[x]; sel != nil {
+				if v, ok := sel.Obj().(*types.Var); ok {
+					if lab, pub := c.t.pubFields[v]; pub {
+						if rr, pok := c.pathOf(x.X); pok {
+							root, _ := rr.Root.(types.Object)
+							if !(len(rr.Path) == 0 && root != nil && c.t.stillPrivate(c.fi, root, x.Pos())) {
+								xs = append(xs, c.wr(rr, lab, x.Pos()))
+							}
+						} else {
+							c.t.fail(x.Pos(), "field %s of a publish-once object is written through an expression that is not a variable/field path", v.Name())
+						}
+					}
+				}
 			}
 			xs = append(xs, c.expr(x.X))
 		case *ast.IndexExpr:
